@@ -30,6 +30,7 @@ Not in the model: `conf_exp_aliases` (the model covers configurations without `a
 `enqueue`/`install` hold for an arbitrary target list, hence for whatever alias expansion yields. -/
 namespace Pm.Props.C01
 open Pm Pm.Client Pm.Daemon
+open Pm.Daemon.Enq
 open Pm.Dev2 (Dev Action Stmt Plug ExecCtx Oracle Out stmtSend hsprintf rangedNames topCtx)
 
 /-- The six power commands are exactly the commands that are not queries (`_is_query_action`). -/
